@@ -4,6 +4,7 @@ package all
 import (
 	_ "hv/props/c01"
 	_ "hv/props/c02"
+	_ "hv/props/c03"
 	_ "hv/props/c04"
 	_ "hv/props/c05"
 	_ "hv/props/c06"
@@ -14,6 +15,9 @@ import (
 	_ "hv/props/c11"
 	_ "hv/props/c12"
 	_ "hv/props/c13"
+	_ "hv/props/c16"
 	_ "hv/props/c17"
 	_ "hv/props/c18"
+	_ "hv/props/c19"
+	_ "hv/props/c20"
 )
